@@ -660,3 +660,37 @@ Proof.
     assert (Hend' : aostep' (abso n o) = []) by (rewrite aostep_abso, Hend; reflexivity).
     exact (terminal_sound aostep' oenc oenc_inj _ RO (orphan_gone bool) HRO cert_orphan_closed cert_orphan_final _ Hra Hend').
 Qed.
+
+(** * Concrete executions (for the non-vacuity examples) *)
+
+(** Follow a script of labels: at each step, the first successor whose label satisfies the predicate. *)
+Fixpoint follow (script : list (label -> bool)) (s : cstate) : option cstate :=
+  match script with
+  | [] => Some s
+  | p :: rest =>
+    match filter (fun x => p (fst x)) (cstep s) with
+    | x :: _ => follow rest (snd x)
+    | [] => None
+    end
+  end.
+
+Lemma follow_reachable script : forall s t, reachable cstep' cinit s -> follow script s = Some t -> reachable cstep' cinit t.
+Proof.
+  induction script as [|p rest IH]; intros s t Hr H; cbn [follow] in H.
+  - injection H as <-. exact Hr.
+  - destruct (filter (fun x => p (fst x)) (cstep s)) as [|x l] eqn:E; [discriminate|].
+    apply (IH (snd x)); [|exact H]. eapply reach_step; [exact Hr|].
+    unfold cstep'. apply in_map. assert (Hin : In x (filter (fun x => p (fst x)) (cstep s))) by (rewrite E; left; reflexivity).
+    apply filter_In in Hin. apply Hin.
+Qed.
+
+Definition l_new (l : label) := match l with LNewCall false => true | _ => false end.
+Definition l_u (l : label) := match l with LTau CU | LHookLoaded | LHookSent | LDial true | LDrop => true | _ => false end.
+Definition l_rl (l : label) := match l with LTau CRl | LRead => true | _ => false end.
+Definition l_wl (l : label) := match l with LTau CWl | LWrite WrOk | LWrite WrClosed => true | _ => false end.
+Definition l_cl (l : label) := match l with LTau CCl => true | _ => false end.
+Definition l_reply (l : label) := match l with LSrv SReply => true | _ => false end.
+Definition l_cancel (l : label) := match l with LCancel => true | _ => false end.
+Definition l_close (l : label) := match l with LCloseStart => true | _ => false end.
+Definition l_ret (l : label) := match l with LRet _ => true | _ => false end.
+Definition l_idlefault (l : label) := match l with LSrv (SIdleFault KOther) => true | _ => false end.
